@@ -916,6 +916,102 @@ func init() {
 	for _, n := range []string{"bytes.Index", "strings.Index", "internal/bytealg.Index", "internal/bytealg.IndexString"} {
 		reg(n, func(fr *frame, a []Value) Value { return index(fr, view(fr, a[0]), view(fr, a[1])) })
 	}
+	// strings.ToLower / ToUpper / bytes.ToLower / ToUpper: exact for all-ASCII operands of concrete
+	// length (the case bit of A-Z / a-z); anything else runs the real code
+	for _, n := range []string{"strings.ToLower", "strings.ToUpper", "bytes.ToLower", "bytes.ToUpper"} {
+		n := n
+		reg(n, func(fr *frame, a []Value) Value {
+			e := fr.e
+			tb := e.tb
+			x := view(fr, a[0])
+			if !x.Len.IsConst() || x.Len.C > 256 {
+				return e.callReal(fr, n, a)
+			}
+			if _, conc := e.concBytes(x); conc {
+				return e.callReal(fr, n, a)
+			}
+			ascii := tb.T
+			for i := uint64(0); i < x.Len.C; i++ {
+				ascii = tb.And(ascii, tb.Ult(e.sliceAt(x, tb.Const(64, i)), tb.Const(8, 0x80)))
+			}
+			if !e.Decide(ascii) {
+				return e.callReal(fr, n, a)
+			}
+			lo, hi, d := uint64('A'), uint64('Z'), uint64(32)
+			upper := strings.HasSuffix(n, "ToUpper")
+			if upper {
+				lo, hi = 'a', 'z'
+			}
+			out := make([]*Term, x.Len.C)
+			for i := range out {
+				c := e.sliceAt(x, tb.Const(64, uint64(i)))
+				in := tb.And(tb.Ule(tb.Const(8, lo), c), tb.Ule(c, tb.Const(8, hi)))
+				if upper {
+					out[i] = tb.Ite(in, tb.Sub(c, tb.Const(8, d)), c)
+				} else {
+					out[i] = tb.Ite(in, tb.Add(c, tb.Const(8, d)), c)
+				}
+			}
+			r := e.termsSlice(out, "tolower")
+			if strings.HasPrefix(n, "strings.") {
+				return e.strVal(r)
+			}
+			return r
+		})
+	}
+	// strings.TrimLeft / TrimRight / Trim (and bytes.*) with a concrete ASCII cutset on an operand of
+	// concrete length: the number of trimmed characters is decided one position at a time (forks)
+	for _, n := range []string{"strings.TrimLeft", "strings.TrimRight", "strings.Trim", "bytes.TrimLeft", "bytes.TrimRight", "bytes.Trim"} {
+		n := n
+		reg(n, func(fr *frame, a []Value) Value {
+			e := fr.e
+			tb := e.tb
+			x := view(fr, a[0])
+			cut, conc := e.concBytes(e.strView(a[1]))
+			if !conc || !x.Len.IsConst() || x.Len.C > 256 {
+				return e.callReal(fr, n, a)
+			}
+			if _, c := e.concBytes(x); c {
+				return e.callReal(fr, n, a)
+			}
+			for _, c := range cut {
+				if c >= 0x80 {
+					return e.callReal(fr, n, a)
+				}
+			}
+			inSet := func(c *Term) *Term {
+				r := tb.F
+				for _, k := range cut {
+					r = tb.Or(r, tb.Eq(c, tb.Const(8, uint64(k))))
+				}
+				return r
+			}
+			// operands with non-ASCII bytes go through the real code (multi-byte runes)
+			ascii := tb.T
+			for i := uint64(0); i < x.Len.C; i++ {
+				ascii = tb.And(ascii, tb.Ult(e.sliceAt(x, tb.Const(64, i)), tb.Const(8, 0x80)))
+			}
+			if !e.Decide(ascii) {
+				return e.callReal(fr, n, a)
+			}
+			lo, hi := uint64(0), x.Len.C
+			if !strings.HasSuffix(n, "TrimRight") {
+				for lo < hi && e.Decide(inSet(e.sliceAt(x, tb.Const(64, lo)))) {
+					lo++
+				}
+			}
+			if !strings.HasSuffix(n, "TrimLeft") {
+				for hi > lo && e.Decide(inSet(e.sliceAt(x, tb.Const(64, hi-1)))) {
+					hi--
+				}
+			}
+			r := SliceVal{x.Obj, tb.Add(x.Off, tb.Const(64, lo)), tb.Const(64, hi-lo), tb.Const(64, hi-lo)}
+			if strings.HasPrefix(n, "strings.") {
+				return e.strVal(r)
+			}
+			return r
+		})
+	}
 	// bytes.EqualFold / strings.EqualFold: exact shortcuts for identical strings and for all-ASCII
 	// operands (where simple folding is the A-Z/a-z case bit); anything else runs the real code
 	for _, n := range []string{"bytes.EqualFold", "strings.EqualFold"} {
